@@ -9,6 +9,7 @@ import (
 	"encoding/json"
 	"errors"
 	"fmt"
+	ics23 "github.com/cosmos/ics23/go"
 	"os"
 	"sort"
 
@@ -76,47 +77,49 @@ type Observers struct {
 	// a later read that memoises a wrong one); the working hash is then observed only by drawn read steps
 	// and by SaveVersion.
 	NoStepWorkingHash bool
-	Light    bool // cheap per-step subset (hash + working reads) for profiles that run a heavier check elsewhere
-	Hybrid   bool // C16/C13: independent reader of a legacy + new-format (hybrid) store vs the reference trees
+	Light             bool // cheap per-step subset (hash + working reads) for profiles that run a heavier check elsewhere
+	Hybrid            bool // C16/C13: independent reader of a legacy + new-format (hybrid) store vs the reference trees
 }
 
 type World struct {
+	LastVRead int64 // version of the last vread step
+	Quiet         bool // see History.Quiet
 	LiveInitAbove bool // SetInitialVersion(v > first stored version) was called on the live handle
-	WBaseLogged bool // the working tree was started from a retained version by setWorkingFrom (its op log is complete)
-	Prop    string
-	Backend string // mem | trace | prefix | level
-	Dir     string
-	Parent  corestore.KVStoreWithBatch // harness-owned DB object
-	DB      corestore.KVStoreWithBatch // what the tree is given (== Parent unless prefix)
-	Trace   *TraceDB
-	Cfg     Cfg
-	Tree    *iavl.MutableTree
-	Obs     Observers
+	WBaseLogged   bool // the working tree was started from a retained version by setWorkingFrom (its op log is complete)
+	Prop          string
+	Backend       string // mem | trace | prefix | level
+	Dir           string
+	Parent        corestore.KVStoreWithBatch // harness-owned DB object
+	DB            corestore.KVStoreWithBatch // what the tree is given (== Parent unless prefix)
+	Trace         *TraceDB
+	Cfg           Cfg
+	Tree          *iavl.MutableTree
+	Obs           Observers
 
-	Vers        map[int64]*VerState
-	First       int64
-	Latest      int64
+	Vers   map[int64]*VerState
+	First  int64
+	Latest int64
 	// LegacyLatest: highest version stored in the legacy (pre-1.0) format, 0 = none (C16). DeleteVersionsTo below it is
 	// a no-op by design ("it will delete the legacy versions at once"), at or above it deletes all of them.
 	LegacyLatest int64
 	LegacyOrig   int64            // latest legacy version when the store was opened (node versions <= it are legacy nodes)
 	Reformatted  map[int64]*RNode // legacy node version -> the legacy node that a reference-root commit re-formatted at (version,0)
 	F29Exposed   bool
-	Base        int64 // first version number ever committed on this store (0 = none yet)
-	Cur         int64 // version the working tree is based on
-	WRoot       *RNode
-	WKV         map[string][]byte
-	WTouched    map[string]bool
-	WOps        []Op // writes since last commit (for normal-form detection)
-	InitPending bool
-	EverFast    bool // a handle with the fast index enabled has ever loaded this DB
-	Dirty       bool // working tree has uncommitted changes
+	Base         int64 // first version number ever committed on this store (0 = none yet)
+	Cur          int64 // version the working tree is based on
+	WRoot        *RNode
+	WKV          map[string][]byte
+	WTouched     map[string]bool
+	WOps         []Op // writes since last commit (for normal-form detection)
+	InitPending  bool
+	EverFast     bool // a handle with the fast index enabled has ever loaded this DB
+	Dirty        bool // working tree has uncommitted changes
 
-	icfg    Cfg
-	icfgSet bool
+	icfg       Cfg
+	icfgSet    bool
 	Pins       map[int64][]*iavl.Exporter // open exporters per version (C04/C06: pinned versions cannot be deleted)
 	Held       map[int64]*heldTree        // ImmutableTree handles obtained earlier and kept across later steps
-	NormalForm bool // generate every version's writes in normal form (C15)
+	NormalForm bool                       // generate every version's writes in normal form (C15)
 	// F1Exposed: a hash-memoising read ran on the working tree while a non-default initial version was pending
 	F1Exposed bool
 	// F3Exposed: a rollback of versions was carried out with the index disabled while a label exists
@@ -136,6 +139,10 @@ type History struct {
 	Cfg     Cfg    `json:"cfg"`
 	Ops     []Op   `json:"ops"`
 	Extra   any    `json:"extra,omitempty"`
+	// Quiet: the observers did not run after every step but only after the last one (their own calls - GetImmutable of
+	// every version, ... - would otherwise refresh exactly the caches a defect may leave stale); the checked steps are
+	// the drawn "vread" steps
+	Quiet bool `json:"quiet,omitempty"`
 }
 
 // the namespace prefix is handed to NewPrefixDB as a slice with spare capacity (as one built by append would be): the
@@ -263,7 +270,7 @@ func (w *World) viol(obs, format string, a ...any) *Violation {
 }
 
 func (w *World) History() History {
-	return History{Prop: w.Prop, Backend: w.Backend, Cfg: w.firstCfg(), Ops: w.Log}
+	return History{Prop: w.Prop, Backend: w.Backend, Cfg: w.firstCfg(), Ops: w.Log, Quiet: w.Quiet}
 }
 
 func (w *World) firstCfg() Cfg {
@@ -549,6 +556,8 @@ func (w *World) Apply(op Op) (v *Violation) {
 		}
 	case "read":
 		return w.applyRead(op)
+	case "vread":
+		return w.applyVRead(op)
 	case "iter":
 		return w.applyIter(op)
 	case "hop":
@@ -867,6 +876,73 @@ func (w *World) applyPrune(op Op) *Violation {
 	}
 	if w.Obs.Fresh {
 		return w.checkFresh("prune")
+	}
+	return nil
+}
+
+// applyVRead: one checked read of one retained version (op.N), as a client would issue it out of the blue.
+func (w *World) applyVRead(op Op) *Violation {
+	vs, ok := w.Vers[op.N]
+	if !ok {
+		return nil // (the version was deleted by a step that was removed during minimization)
+	}
+	t := w.Tree
+	want, present := vs.KV[string(op.K)]
+	w.Labels["vread"] = true
+	w.Cnt["vread_steps"]++
+	w.LastVRead = op.N
+	switch op.Read {
+	case "versioned":
+		g, err := t.GetVersioned(op.K, op.N)
+		if err != nil || !bytes.Equal(g, want) || (g == nil) == present {
+			return w.viol("vread.getversioned", "GetVersioned(%q,%d)=%q,nil=%v,%v want %q present=%v", op.K, op.N, g, g == nil, err, want, present)
+		}
+		return nil
+	case "proof":
+		if vs.Root == nil || len(op.K) == 0 {
+			return nil
+		}
+		p, err := t.GetVersionedProof(op.K, op.N)
+		if err != nil || p == nil {
+			return w.viol("vread.proof", "GetVersionedProof(%q,%d): %v", op.K, op.N, err)
+		}
+		root := rhash(vs.Root, 0, false)
+		if present {
+			if p.GetExist() == nil {
+				return w.viol("vread.proof", "GetVersionedProof(present %q,%d) is not a membership proof", op.K, op.N)
+			}
+			if len(want) > 0 && !ics23.VerifyMembership(ics23.IavlSpec, root, p, op.K, want) {
+				return w.viol("vread.proof", "GetVersionedProof(%q,%d) does not verify against the reference root of version %d (proved value %q, model %q)", op.K, op.N, op.N, p.GetExist().Value, want)
+			}
+		} else if p.GetNonexist() == nil {
+			return w.viol("vread.proof", "GetVersionedProof(absent %q,%d) is not a non-membership proof", op.K, op.N)
+		}
+		return nil
+	}
+	it, err := t.GetImmutable(op.N)
+	if err != nil {
+		return w.viol("vread.getimmutable", "GetImmutable(%d): %v (retained %v)", op.N, err, w.Retained())
+	}
+	switch op.Read {
+	case "get":
+		g, err := it.Get(op.K)
+		if err != nil || !bytes.Equal(g, want) || (g == nil) == present {
+			return w.viol("vread.get", "GetImmutable(%d).Get(%q)=%q,nil=%v,%v want %q present=%v", op.N, op.K, g, g == nil, err, want, present)
+		}
+	case "has":
+		h, err := it.Has(op.K)
+		if err != nil || h != present {
+			return w.viol("vread.has", "GetImmutable(%d).Has(%q)=%v,%v want %v", op.N, op.K, h, err, present)
+		}
+	case "hash":
+		if h := it.Hash(); !bytes.Equal(h, rhash(vs.Root, 0, false)) {
+			return w.viol("vread.hash", "GetImmutable(%d).Hash()=%x want %x", op.N, h, rhash(vs.Root, 0, false))
+		}
+	default: // iterate
+		var got []KV
+		if _, err := it.Iterate(func(k, v []byte) bool { got = append(got, KV{cp(k), cp(v)}); return false }); err != nil || !eqKVs(got, sortedKVs(vs.KV)) {
+			return w.viol("vread.iterate", "GetImmutable(%d).Iterate=%s,%v want %s", op.N, fmtKVs(got), err, fmtKVs(sortedKVs(vs.KV)))
+		}
 	}
 	return nil
 }
